@@ -46,6 +46,7 @@ TRANSPARENT = {
     'std::task::Poll::map_err': 'map_err', 'std::result::Result::map_err': 'map_err',
     'std::option::Option::take': 'take',
     'std::mem::take': 'take',
+    'hash_map::OccupiedEntry::get': 'get', 'hash_map::OccupiedEntry::get_mut': 'get', 'hash_map::OccupiedEntry::into_mut': 'get',
     'Instrument::instrument': 'wrap', 'Instrument::in_current_span': 'wrap',
     'delay_queue::Expired::into_inner': 'inner', 'delay_queue::Expired::get_ref': 'inner', 'delay_queue::Expired::get_mut': 'inner',
 }
